@@ -751,6 +751,19 @@ def select_signatures(rng, total):
         cov_cells.update(cells)
         cov_pairs.update(pairs)
         sigs.append(s)
+    # twin signatures: two by-value parameters of the same non-primitive kind (called with ONE variable for both, see gen_call):
+    # each parameter must be a value of its own (the callee may change one of them) and each is released exactly once
+    nonprim = [k for k in KIND_CODES if not KINDS[k].prim]
+    rng.shuffle(nonprim)
+    ntwin = max(4, total // 8)
+    for j in range(min(ntwin, len(sigs))):
+        kind = nonprim[j % len(nonprim)]
+        ps = [{"kind": kind, "ref": False, "by": rng.choice(["keep", "steal", "replace"])}, {"kind": kind, "ref": False, "by": rng.choice(["keep", "keep", "replace"])}]
+        if rng.random() < 0.5:
+            ps.insert(1, {"kind": rng.choice(["Z", "K", "C", "B"]), "ref": False})
+        if rng.random() < 0.3:
+            ps.append({"kind": kind, "ref": True})
+        sigs[len(sigs) - 1 - j] = {"params": ps, "ret": rng.choice([None, kind, "Z"]), "twin": True}
     rng.shuffle(sigs)
     return sigs, len(cov_cells), len(cov_pairs)
 
@@ -762,6 +775,7 @@ def gen_call(rng, fn, fi, n):
     vars_, args = [], []
     extreme = n == 0
     ref_vars = {}      # kind -> variable name of an earlier plain-variable Referenz argument
+    val_vars = {}      # kind -> variable name of an earlier plain-variable by-value argument
     for i, p in enumerate(params):
         kind = p["kind"]
         k = KINDS[kind]
@@ -772,12 +786,16 @@ def gen_call(rng, fn, fi, n):
         if kind in FIELDOF:
             choices += ["field"] * 2
         form = rng.choice(choices)
+        if fn.get("twin") and not p["ref"]:
+            form = "var"
         calc = None
         if kind == "W" and not p["ref"] and n % 3 != 2:     # call 0: result of a DDP function, call 1: its negation, call 2: variable/element/field
             form, calc = "var", ("calc", "calcnot")[n % 3]
         arg = None
         if form == "var" and not calc and kind in ref_vars and rng.random() < (0.25 if p["ref"] else 0.2):
             arg = {"var": ref_vars[kind]}           # aliasing: same variable for two parameters
+        elif form == "var" and not calc and not p["ref"] and kind in val_vars and rng.random() < (0.8 if fn.get("twin") else 0.45):
+            arg = {"var": val_vars[kind], "same_value_twice": True}      # the same variable for two by-value parameters: each parameter is a value of its own
         elif form == "var":
             vars_.append({"name": nm, "kind": kind, "value": gen_value(rng, kind, extreme)})
             arg = {"var": nm}
@@ -787,6 +805,8 @@ def gen_call(rng, fn, fi, n):
                     vars_[-1]["value"] = calc == "calc"     # wahr from the function, falsch from its negation
             if p["ref"]:
                 ref_vars.setdefault(kind, nm)
+            elif not calc:
+                val_vars.setdefault(kind, nm)
         elif form == "elem":
             lk = LISTOF[kind]
             lv = gen_value(rng, lk, extreme, min_len=1)
@@ -798,7 +818,7 @@ def gen_call(rng, fn, fi, n):
             ck, fname, idx = FIELDOF[kind]
             vars_.append({"name": nm, "kind": ck, "value": gen_value(rng, ck, extreme)})
             arg = {"var": nm, "path": ["field", fname, idx]}
-        if not p["ref"] and not k.prim and rng.random() < 0.3:
+        if not p["ref"] and not k.prim and not arg.get("same_value_twice") and rng.random() < 0.3:
             arg["temp"] = True
         args.append(arg)
     call = {"vars": vars_, "args": args, "toplevel": rng.random() < 0.4, "writes": {}, "repl": {}}
@@ -834,7 +854,7 @@ def make_specs(rng, total_sigs, per_program, ncalls):
         pi = len(specs)
         fns = []
         for fi, s in enumerate(chunk):
-            fn = {"name": "fx%d" % fi, "params": s["params"], "ret": s["ret"], "calls": []}
+            fn = {"name": "fx%d" % fi, "params": s["params"], "ret": s["ret"], "calls": [], "twin": bool(s.get("twin"))}
             for n in range(ncalls):
                 fn["calls"].append(gen_call(rng, fn, fi, n))
             fns.append(fn)
